@@ -31,7 +31,8 @@ def Dep.code : Dep → Nat
 inductive Attr (P E V : Type)
   /-- a plain Python value (float, int, bool, `_DefaultValue`, list, ndarray) -/
   | py (v : P)
-  /-- an `MX`: whether `not is_constant() and depends_on(parameters)`, and its element
+  /-- an `MX` (or, since 00f122e, a list with `MX` elements, which `save_model` turns into one
+      `MX`): whether `not is_constant() and depends_on(parameters)`, and its element
       values (one value = scalar, else one per element, column-major) at a parameter vector -/
   | mx (dependent : Bool) (f : E → List V)
 
